@@ -56,6 +56,8 @@ def gen_restype(g, name, atypes, idx, allow_vs=True, allow_angles=True, max_atom
             if len(nb) >= 2:
                 angles.append([nb[0], b, nb[1], g.choice([100, 120, 140, 180]), 50])
                 break
+    # function types whose first parameter is the reference angle: harmonic, G96, Urey-Bradley, restricted bending
+    angle_functs = [g.choice([1, 1, 1, 2, 5, 10]) if th != 180 else 1 for (_a, _b, _c, th, _k) in angles]
     impropers = []
     propers = []
     if n == 4 and shape != "ring" and not impossible and g.random() < improper_p:
@@ -77,6 +79,7 @@ def gen_restype(g, name, atypes, idx, allow_vs=True, allow_angles=True, max_atom
         bonds[:] = [[0, 1, b, 100000], [0, 2, b, 100000], [0, 3, b, 100000]]
         constraints[:] = []
         angles[:] = [[1, 0, 2, 120, 500], [1, 0, 3, 120, 500], [2, 0, 3, 120, 500]]
+        angle_functs[:] = [1, 1, 1]
         impropers[:] = [[0, 1, 2, 3, g.choice([60.0, -60.0, 55.0]), 200]]
         propers[:] = []
         shape = "tree"
@@ -109,7 +112,13 @@ def gen_restype(g, name, atypes, idx, allow_vs=True, allow_angles=True, max_atom
             atoms.append({"name": f"{prefix}W", "atype": g.choice(atypes)})
         elif kind == "n1":
             k = g.randint(2, min(3, n))
-            vsites.append({"kind": "n", "funct": 1, "from": list(range(k)), "params": []})
+            funct = 1
+            if g.random() < 0.3:
+                # centre-of-mass site (funct 2) over atoms of ONE type: centre of mass == centre of geometry
+                funct = 2
+                for i in range(1, k):
+                    atoms[i]["atype"] = atoms[0]["atype"]
+            vsites.append({"kind": "n", "funct": funct, "from": list(range(k)), "params": []})
         elif kind == "2":
             vsites.append({"kind": "2", "funct": 1, "from": [0, 1], "params": [round(g.uniform(0.2, 0.8), 3)]})
         elif kind == "3":
@@ -134,7 +143,7 @@ def gen_restype(g, name, atypes, idx, allow_vs=True, allow_angles=True, max_atom
         # the appended order is [W (for the vs2), V (for the vs3)]: vsites[0] <-> atom n, vsites[1] <-> atom n+1
         pass
     return {"vs3_before_vs2": len(vsites) == 2, "vs_zero_mass": bool(vsites) and g.random() < 0.5, "name": name, "atoms": atoms, "bonds": bonds, "constraints": constraints,
-            "angles": angles, "vsites": vsites, "blen": blen, "impossible": impossible, "impropers": impropers,
+            "angles": angles, "angle_functs": angle_functs, "vsites": vsites, "blen": blen, "impossible": impossible, "impropers": impropers,
             "strained": strained, "conflict": conflict, "propers": propers}
 
 
@@ -220,8 +229,11 @@ def expand_moltype(mt, restypes):
             sec["bonds"].append(f"{ids[a]} {ids[b]} 1 {l} {k}")
         for a, b, l in rt["constraints"]:
             sec["constraints"].append(f"{ids[a]} {ids[b]} 1 {l}")
-        for a, b, c, th, k in rt["angles"]:
-            sec["angles"].append(f"{ids[a]} {ids[b]} {ids[c]} 1 {th} {k}")
+        functs = rt.get("angle_functs") or []
+        for i, (a, b, c, th, k) in enumerate(rt["angles"]):
+            f = functs[i] if len(functs) == len(rt["angles"]) else 1
+            extra = " 0.0 0.0" if f == 5 else ""
+            sec["angles"].append(f"{ids[a]} {ids[b]} {ids[c]} {f} {th} {k}{extra}")
         for a, b, c, d, q0, k in rt.get("impropers", []):
             sec["dihedrals"].append(f"{ids[a]} {ids[b]} {ids[c]} {ids[d]} 2 {q0} {k}")
         for a, b, c, d, f, phi, k, mult in rt.get("propers", []):
